@@ -159,13 +159,13 @@ Proof.
 Qed.
 
 (* an invocation event files a call that carries the callee name and the position of the callee
-   identifier: its line, its column, and column + length of the name *)
+   identifier: its line, its column, and column + number of characters of the name (columns count characters) *)
 Theorem method_call_recorded : forall st callee target tic inner whole args has_args p,
     exists c,
       calls_at (body_event st (ECall callee target tic inner whole args has_args p)) (cur_key st)
       = calls_at st (cur_key st) ++ [c] /\
       c_fn c = callee /\
-      c_pos c = mkPos (q_sl p) (q_sc p) (q_el p) (q_sc p + String.length callee) /\
+      c_pos c = mkPos (q_sl p) (q_sc p) (q_el p) (q_sc p + rune_count callee) /\
       c_params c = (if has_args then map (fun a => mkProp "" a) args else []).
 Proof.
   intros. cbn [body_event]. unfold enter_method_call.
